@@ -447,6 +447,10 @@ def rt_identity(d, hits, api):
         return      # names outside the tables cannot be encoded back (no code for 'UNKNOWN')
     try:
         y = ModuleIdentityObject.decode(ModuleIdentityObject.encode(x))
+        # the same identity as a dict in another key order encodes to the same bytes
+        x2 = {k: (dict(reversed(list(v.items()))) if isinstance(v, dict) else v) for k, v in reversed(list(x.items()))}
+        if ModuleIdentityObject.encode(x2) != ModuleIdentityObject.encode(x):
+            hits.hit("C16", "identity.roundtrip", f"{api}: encoding depends on the key order of the identity dict", api=api)
     except Exception as e:  # noqa
         hits.hit("C16", "identity.roundtrip", f"{api}: encode/decode of {str(x)[:80]} raised {type(e).__name__}: {e}", api=api)
         return
